@@ -192,6 +192,12 @@ class ScriptedSession:
                 gone = [f for f in fins if f != FIN][:1]
                 b['metadata']['finalizers'] = [f for f in fins if f not in gone]
             api.edit(kind, NS, NAME, drop, actor='foreign')
+        elif how == 'clobber':       # somebody changes the very fields which the operator re-asserts with their last-seen values
+            def clobber(b: dict) -> None:
+                b.setdefault('status', {})['old'] = 5
+                b['metadata'].setdefault('labels', {})['app'] = 'taken-over'
+                b.setdefault('spec', {})['a'] = 7
+            api.edit(kind, NS, NAME, clobber, actor='foreign')
         elif how == 'unlabel':       # somebody removes the label which an 'ensure' transformation keeps in place
             api.edit(kind, NS, NAME, lambda b: (b['metadata'].get('labels') or {}).pop('app', None), actor='foreign')
         elif how == 'delete':
@@ -807,7 +813,7 @@ def run_apply(env: Env, desc: dict) -> dict:
     if desc.get('deleting'):
         api.delete(kind, NS, NAME, actor='user')
         obj0 = api.get(kind, NS, NAME)
-    sess = ScriptedSession(api, kind, tuple(desc['fault']) if desc.get('fault') else None, None)
+    sess = ScriptedSession(api, kind, tuple(desc['fault']) if desc.get('fault') else None, tuple(desc['slip']) if desc.get('slip') else None)
     set_vault(sess)
     fns = [make_fn(k) for k in fn_kinds]
     body = bodies.Body(copy.deepcopy(obj0))
@@ -875,6 +881,19 @@ def apply_case(o: dict) -> fw.Case:
     return fw.Case(term, data, diag=f'po_apply_observe {call}')
 
 
+def _deep_update(dst: dict, src: dict) -> dict:
+    out = dict(dst)
+    for k, v in src.items():
+        out[k] = _deep_update(out[k], v) if isinstance(v, dict) and isinstance(out.get(k), dict) else copy.deepcopy(v)
+    return out
+
+
+def _deep_subset(a: Any, b: Any) -> bool:
+    if isinstance(a, dict):
+        return isinstance(b, dict) and all(k in b and _deep_subset(v, b[k]) for k, v in a.items())
+    return a == b and type(a) is type(b)
+
+
 def monitor_apply(ctx: fw.Ctx, o: dict) -> None:
     desc, log = o['desc'], o['sess'].log
     case = dict(desc, requests=[x.brief() for x in log], sleeps=o['sleeps'])
@@ -886,6 +905,26 @@ def monitor_apply(ctx: fw.Ctx, o: dict) -> None:
             ctx.fail('apply: a 404 escaped as an exception', case, repr(o['val']), sig='apply-404-raised')
         return
     applied, rv, remaining = o['val']
+    # every field of the accumulated merge-patch is sent exactly as accumulated, whatever the handled body says about it
+    if o['content'] and log and not any(x.status != 200 for x in log):
+        sent: dict = {}
+        for x in log:
+            if x.ctype == CT_MERGE and isinstance(x.payload, dict):
+                sent = _deep_update(sent, x.payload)
+        if not _deep_subset(o['content'], sent):
+            ctx.fail('apply: a part of the accumulated merge-patch was sent to no URL (fields whose value equals the handled body are fields too)', case,
+                     {'patch': o['content'], 'sent': sent}, expected='every field of the patch in a merge payload, as accumulated', sig='merge-part-dropped')
+        # ... and right after the request that carries a side of the patch, the server object has the accumulated values of that side
+        # (whoever wrote those fields before; a later foreign write may of course change them again)
+        sub_ = desc['subresource']
+        sides = {'main': {k: v for k, v in o['content'].items() if not (sub_ and k == 'status')},
+                 'status': {'status': o['content']['status']} if sub_ and 'status' in o['content'] else {}}
+        for side, part in sides.items():
+            x = next((x for x in log if x.ctype == CT_MERGE and x.kind == side), None)
+            if part and (x is None or x.after is None or canon.merge7386(x.after, part) != x.after):
+                ctx.fail('apply: after the accepted merge-patch request the server object does not have the values the handlers accumulated', case,
+                         {'side': side, 'accumulated': part, 'server_after_request': None if x is None else x.after}, sig='incomplete')
+                break
     # the touch-dummy is removed whenever something is patched anyway
     if p and desc['touched'] and log:
         merged: dict = {}
@@ -1007,6 +1046,15 @@ def apply_descs() -> list[dict]:
     for sub in (False, True):
         out.append({'level': 'function', 'fn': 'apply', 'patch': {}, 'fn_kinds': ['allow'], 'delays': [], 'woken': False, 'touched': False,
                     'subresource': sub, 'fault': None, 'deleting': True})
+    # the accumulated patch re-asserts values which the handled body already has (a phase, a label, a result equal to the stored
+    # one), alone and next to new values; a foreign writer changes those very fields before the operator's requests
+    same = [({'status': {'old': 0}}, []), ({'metadata': {'labels': {'app': 'demo'}}, 'status': {'old': 0, 's': 1}}, []),
+            ({'spec': {'a': 1, 'b': 2}, 'status': {'old': 0}}, ['statusedit']), ({'metadata': {'annotations': {'keep': 'me', 'gone': None}}}, [])]
+    for (content, fn_kinds), sub, touched in itertools.product(same, (False, True), (False, True)):
+        for slip in (None, (0, 'clobber'), (1, 'clobber'), (2, 'clobber')):
+            for delays in ([], [5]):
+                out.append({'level': 'function', 'fn': 'apply', 'patch': content, 'fn_kinds': fn_kinds, 'delays': delays, 'woken': False,
+                            'touched': touched, 'subresource': sub, 'fault': None, 'slip': list(slip) if slip else None})
     return out
 
 
